@@ -143,7 +143,9 @@ def run_harness(cases, workdir, profile='debug', timeout=600, tag='cases'):
             crashed = order[start] if start < len(order) else None
             if crashed is None:
                 break
-        desc = f'signal {-rc}' if rc < 0 and rc != -999 else ('timeout' if rc == -999 else ('hang (no progress for 20 s)' if rc == 97 else f'exit {rc}'))
+        desc = f'signal {-rc}' if rc < 0 and rc != -999 else ('timeout' if rc == -999 else f'exit {rc}')
+        if 'watchdog' in err:
+            desc = 'hang (no progress for 20 s)'
         crashes[crashed] = f'Crash({desc}) after {len(open_lines or [])} ops; stderr: {err.strip()[-200:]}'
         results[crashed] = (open_lines or []) + [f'CRASH {desc}']
         start = order.index(crashed) + 1
